@@ -396,3 +396,82 @@ def scheme_builder_call(ctx: Ctx):
     fparam = cg.params[1]
     calls = [c for c in av.find_all(v, "call") if c[1] == fparam] + [c for c in av.find_all(v, "vcall") if c[1] == ("sym", fparam)]
     return cg, (calls[0] if calls else None), v
+
+
+# ---- the recursive tree -> sympy builder of expressions.py, found by what it does -----------------------------------
+BUILD = "<build>"
+SYMBOLS = ("sym", "<symbols>")
+
+
+def tree_builder(ctx: Ctx, required: bool = True) -> Func | None:
+    """The function (module-level, nested or a method) of expressions.py that dispatches on the `data` of a lark tree and
+    calls itself on the children - whatever it is called and wherever it lives."""
+    cached = ctx.__dict__.get("_tree_builder")
+    if cached is not None:
+        return cached
+    best, score = None, 0
+    for f in ctx.sm.funcs_in("expressions.py"):
+        own = [n for n in walk_no_nested(f.node)]
+        n_cmp = sum(1 for n in own if isinstance(n, ast.Compare) and isinstance(n.left, ast.Attribute) and n.left.attr == "data")
+        n_cmp += sum(1 for n in own if isinstance(n, ast.Match) and isinstance(n.subject, ast.Attribute) and n.subject.attr == "data") * 3
+        rec = any(isinstance(n, ast.Call) and ((isinstance(n.func, ast.Name) and n.func.id == f.name) or (isinstance(n.func, ast.Attribute) and n.func.attr == f.name and isinstance(n.func.value, ast.Name) and n.func.value.id in ("self", "cls"))) for n in own)
+        if rec and n_cmp > score:
+            best, score = f, n_cmp
+    if best is None or score < 3:
+        if required:
+            raise AnalysisError("expressions.py: no function that dispatches on tree.data and calls itself on the children was found (anchor vanished)")
+        return None
+    ctx.__dict__["_tree_builder"] = best
+    return best
+
+
+def tree_param(f: Func) -> str:
+    ps = [p for p in f.params if p not in ("self", "cls")]
+    return ps[0] if ps else "tree"
+
+
+def norm_builder(v, f: Func):
+    """A value of the builder with its own spelling removed: recursive calls are `<build>(x)`, the tree parameter is
+    `tree`, and the table a `variable` node is looked up in is `<symbols>`."""
+    from sa import av as _av
+
+    from . import util
+
+    tp = tree_param(f)
+
+    def rec(t):
+        if not isinstance(t, tuple) or not t:
+            return t
+        if t[0] == "call" and isinstance(t[1], str) and t[1].split(".")[-1] == f.name and len(t) == 4:
+            return ("call", BUILD, tuple(rec(a) for a in t[2]), tuple(rec(k) for k in t[3]))
+        if t[0] == "mcall" and t[2] == f.name and t[1] in (("sym", "self"), ("sym", "cls")):
+            return ("call", BUILD, tuple(rec(a) for a in t[3]), tuple(rec(k) for k in t[4]))
+        if t[0] == "sym" and isinstance(t[1], str) and tp != "tree" and (t[1] == tp or t[1].startswith(tp + ".")):
+            return ("sym", "tree" + t[1][len(tp):])
+        return tuple(rec(x) for x in t)
+
+    v = rec(v)
+    cases = util.dispatch_cases(v, ("sym", "tree.data"))
+    cv = cases.get("variable")
+    tables = {x[1] for x in _av.find_all(cv, "sub") if x[1][0] in ("sym", "attr")} if cv is not None else set()
+    tables = {t for t in tables if not (t[0] == "sym" and t[1].startswith("tree"))}
+    if len(tables) == 1:
+        v = _av.subst(v, {next(iter(tables)): SYMBOLS})
+    return v
+
+
+def builder_values(ctx: Ctx, ref_src: str | None = None):
+    """(builder, its normalised value, the normalised value of the vetted reference text or None, key term)"""
+    from . import util
+
+    f = tree_builder(ctx)
+    cache = ctx.__dict__.setdefault("_builder_values", {})
+    if ref_src not in cache:
+        cur = norm_builder(util.value_of(ctx, f), f)
+        ref = None
+        if ref_src is not None:
+            rv, rf = util.reference_value(ctx, "expressions.py", f.qualname, ref_src, with_func=True)
+            ref = norm_builder(rv, rf)
+        cache[ref_src] = (cur, ref)
+    cur, ref = cache[ref_src]
+    return f, cur, ref, ("sym", "tree.data")
